@@ -89,6 +89,7 @@ class Engine:
 
     def hash_of(self, qual):
         key, name = qual.split("::")
+        name = name.split(".")[-1]
         for k, p in FILES.items():
             if p == key or k == key:
                 return self.mods[k].func_hash(name)
